@@ -1,4 +1,5 @@
 import RadicaleProofs.Dav
+import RadicaleProofs.DavStore
 /-
   C01 — stored data follows the DAV object model.  The ideal store is RadicaleModel/Dav.lean; these theorems
   say what "ideal" means; that the implementation behaves like it is the correspondence check.
@@ -12,5 +13,88 @@ theorem write_leaves_others (c : Coll) (h h' : String) (it : Item) (hne : h' ≠
 theorem deleted_is_gone (c : Coll) (h : String) : item? (c.del h) h = none := item_del_same c h
 theorem delete_leaves_others (c : Coll) (h h' : String) (hne : h' ≠ h) : item? (c.del h) h' = item? c h' :=
   item_del_other c h h' hne
+
+/-! ### store level: one acknowledged write, seen through `resolve` (what every read handler starts from) -/
+
+/-- **an acknowledged PUT of an object is visible under its name, and nothing else appears, disappears or
+    changes**: the name resolves to the new object; every other path resolves to the same resource as before -/
+theorem put_item_visible_nothing_else (cfg : Cfg) (rights : Rights) (user : String) (s : Store) (hw : WF s)
+    (p : Path) (body : Body) (im raw nm imc) (resp : Resp) (u : Update) (pc : Coll)
+    (hpar : parentOk s p = some pc) (hitem : isWhole (resolve s p) pc = false)
+    (h : putU cfg rights user s p body im raw nm imc = (resp, some u)) :
+    ∃ it x, asItem pc.tag body = some it ∧ p.getLast? = some x ∧
+      resolve (applyUpdate s u) p = .item p.dropLast (pc.put x it) x it ∧
+      ∀ q, q ≠ p → sameResource (resolve (applyUpdate s u) q) (resolve s q) := by
+  have h2 : (putU cfg rights user s p body im raw nm imc).2 = some u := by rw [h]
+  unfold putU at h2
+  split at h2
+  · simp at h2
+  split at h2
+  · simp at h2
+  rw [hpar] at h2
+  simp only [putDispatch, hitem, Bool.false_eq_true, if_false] at h2
+  obtain ⟨it, hit, rfl, _⟩ := putItemU_upd rights user p body pc (resolve s p) im raw nm u h2
+  have hfree : coll? s p = none := by
+    cases hc : coll? s p with
+    | none => rfl
+    | some c =>
+      have : resolve s p = .coll p c := by unfold resolve; rw [hc]
+      rw [this] at hitem
+      simp [isWhole] at hitem
+  have hne : p ≠ [] := by
+    intro e; subst e
+    obtain ⟨r, hr, _⟩ := root_present s hw
+    rw [hr] at hfree; cases hfree
+  obtain ⟨x, hx⟩ : ∃ x, p.getLast? = some x := by
+    cases hl : p.getLast? with
+    | none => exact absurd (List.getLast?_eq_none_iff.mp hl) hne
+    | some x => exact ⟨x, rfl⟩
+  have hp := dropLast_getLast p x hx
+  have hxd : p.getLast?.getD "" = x := by rw [hx]; rfl
+  refine ⟨it, x, hit, hx, ?_, ?_⟩
+  · simp only [applyUpdate, hxd]
+    have := resolve_member s p.dropLast (pc.put x it) x (by rw [← hp]; exact hfree)
+    rw [← hp] at this
+    rw [this, item_put_same]
+  · intro q hq
+    simp only [applyUpdate, hxd]
+    apply resolve_after_member_change s p.dropLast pc (pc.put x it) x hpar (by simp [Coll.put]) (by simp [Coll.put])
+    · intro y hy; exact item_put_other pc x y it hy
+    · rw [← hp]; exact hq
+
+/-- **an acknowledged DELETE of an object removes exactly that object** -/
+theorem delete_item_gone_nothing_else (cfg : Cfg) (rights : Rights) (user : String) (s : Store)
+    (p : Path) (im imc) (resp : Resp) (u : Update) (parent : Path) (c : Coll) (x : String) (it : Item)
+    (hres : resolve s p = .item parent c x it)
+    (h : deleteU cfg rights user s p im imc = (resp, some u)) :
+    resolve (applyUpdate s u) p = .absent ∧ ∀ q, q ≠ p → sameResource (resolve (applyUpdate s u) q) (resolve s q) := by
+  have h2 : (deleteU cfg rights user s p im imc).2 = some u := by rw [h]
+  have hu := deleteU_item_upd cfg rights user s p im imc u parent c x it hres h2
+  subst hu
+  obtain ⟨hfree, hpar, hc, hlast, _⟩ := resolve_item s p parent c x it hres
+  subst hpar
+  have hp := dropLast_getLast p x hlast
+  constructor
+  · simp only [applyUpdate]
+    have := resolve_member s p.dropLast (c.del x) x (by rw [← hp]; exact hfree)
+    rw [← hp] at this
+    rw [this, item_del_same]
+  · intro q hq
+    simp only [applyUpdate]
+    apply resolve_after_member_change s p.dropLast c (c.del x) x hc (by simp [Coll.del]) (by simp [Coll.del])
+    · intro y hy; exact item_del_other c x y hy
+    · rw [← hp]; exact hq
+
+/-- a refused or failed request is the identity on the store (with C15's `error_is_identity`) and reads never
+    change it: `handle` returns the store it was given whenever the handler decides on no update -/
+theorem no_update_no_change (cfg : Cfg) (rights : Rights) (user : String) (s : Store) (r : Req)
+    (h : (handleU cfg rights user s r).2 = none) : (handle cfg rights user s r).2 = s := by
+  unfold handle
+  cases hh : handleU cfg rights user s r with
+  | mk resp ou =>
+    rw [hh] at h
+    simp only at h
+    subst h
+    rfl
 
 end C01
